@@ -63,6 +63,18 @@ type Options struct {
 	// EmptySubjects: a commit may have no message at all (`git commit --allow-empty-message -m ""`): %s is
 	// empty and the commit line ends with the blank that follows the date.
 	EmptySubjects bool
+
+	// Option added after seed C14-r5 (paths git prints C-quoted). Defaults to off, and with it off the sequence
+	// of draws is unchanged.
+	//
+	// QuotedPaths: one history in four also draws its directories, file names and rename components from pools of
+	// names git prints in C notation between double quotes (core.quotepath at its default): bytes above 0x7f
+	// (UTF-8 sequences of two, three and four bytes, a combining accent next to the precomposed letter), a double
+	// quote, a backslash (also text that itself reads like the notation: `\303\244.txt`, `a\tb`), a tab, a line
+	// break, CR, BEL, ESC, DEL. numstat and summary lines then carry `"sp\303\244t.txt"`, a rename that involves
+	// such a path is printed as `old => new` with both full paths, each quoted where it needs it (no braces).
+	// Invalid UTF-8 stays out (a case is stored as JSON, which cannot hold it).
+	QuotedPaths bool
 }
 
 var (
@@ -106,6 +118,12 @@ var (
 	dirPoolRun  = []string{"d  ir"}
 	namePoolRun = []string{"two  blanks.md", "read  me.txt"}
 
+	// names git prints in C notation (QuotedPaths). As above no file name is a directory component as well.
+	dirPoolQuoted  = []string{"d\u00e4", "a/s\u00fcb dir", "\u6587\u6863/sub", "tab\tdir", "q\"d", "a/back\\dir", "nl\nd/x", "a/b/\u00e9"}
+	namePoolQuoted = []string{"sp\u00e4t.txt", "\u6587\u6863.md", "na\u00efve file.txt", "\U0001F600.md", "\u00e9.txt", "e\u0301.txt", "say \"hi\".txt", "\"all\"",
+		"back\\slash.txt", "\\303\\244.txt", "a\\tb", "a\tb", "tab\there.txt", "line\nbreak.txt", "cr\r.txt", "bell\a.sh", "esc\x1b[0m.txt", "del\x7f.bin", "\u00fc"}
+	compPoolQuoted = []string{"ne\u00fc", "q\"c", "c\\d"}
+
 	branchPool  = []string{"side", "feature/x", "fix-123", "release/1.2", "hotfix/2019-12-31", "dependabot/npm_and_yarn/lodash-4.17.21", "main", "master", "b"}
 	tagPool     = []string{"v1.0", "v1.2.3", "release-2", "1.0.0-rc.1"}
 	userPool    = []string{"octocat", "ann-lee", "dependabot", "r2d2"}
@@ -141,6 +159,7 @@ type genState struct {
 	authors  []string
 	day      int
 	lastDate string
+	quoted   bool // this history also draws from the pools of names git prints C-quoted (Options.QuotedPaths)
 }
 
 func join(dir, name string) string {
@@ -178,6 +197,9 @@ func (g *genState) dirs() []string {
 			out = append(out, dirPoolOnlyBlank...)
 		}
 	}
+	if g.quoted {
+		out = append(append([]string{}, out...), dirPoolQuoted...)
+	}
 	return out
 }
 
@@ -189,6 +211,9 @@ func (g *genState) comps() []string {
 		if g.o.LeadingBlankPaths {
 			out = append(out, compPoolOnlyBlank...)
 		}
+	}
+	if g.quoted {
+		out = append(append([]string{}, out...), compPoolQuoted...)
 	}
 	return out
 }
@@ -212,6 +237,9 @@ func (g *genState) names() []string {
 		if g.o.LeadingBlankPaths {
 			out = append(out, namePoolOnlyBlank...)
 		}
+	}
+	if g.quoted {
+		out = append(append([]string{}, out...), namePoolQuoted...)
 	}
 	return out
 }
@@ -667,6 +695,9 @@ func Gen(t *rapid.T, o Options) History {
 		g.authors = append(g.authors, rapid.SampledFrom(g.authorNames()).Draw(t, "authorName"))
 	}
 	n := rapid.IntRange(1, o.MaxCommits).Draw(t, "nCommits")
+	if o.QuotedPaths {
+		g.quoted = rapid.IntRange(0, 3).Draw(t, "quotedPaths") == 3
+	}
 	var h History
 	for i := 0; i < n; i++ {
 		c := Commit{Author: rapid.SampledFrom(g.authors).Draw(t, "author")}
@@ -764,6 +795,17 @@ var (
 	reMergeLike   = regexp.MustCompile(`^(Merge|Merged) `)
 	reGenerated   = regexp.MustCompile(`^(Revert "|Reapply "|fixup! |squash! |amend! |Squashed commit of|Initial commit$|WIP on |index on |Bump |Create |Update |Delete |Add files via upload|Rename |Release |Version |Cherry-pick )|^v?\d+\.\d+\S*$|^release-\d+$`)
 )
+
+// commonDir is the longest directory prefix two paths share ("" = none).
+func commonDir(a, b string) string {
+	pfx := 0
+	for i := 0; i < len(a) && i < len(b) && a[i] == b[i]; i++ {
+		if a[i] == '/' {
+			pfx = i
+		}
+	}
+	return a[:pfx]
+}
 
 // trimComponents removes the blanks at the end of every component of a path.
 func trimComponents(p string) string {
@@ -900,6 +942,64 @@ func Features(sim *Sim) []string {
 					set["path_nested"] = true
 				}
 			}
+			// paths git prints in C notation between double quotes
+			qOld, qNew := e.Old != "" && QuoteC(e.Old) != e.Old, e.New != "" && QuoteC(e.New) != e.New
+			if qOld || qNew {
+				set["path_c_quoted"] = true
+				switch e.Kind {
+				case 'A':
+					set["path_c_quoted_create"] = true
+				case 'D':
+					set["path_c_quoted_delete"] = true
+				case 'M':
+					set["path_c_quoted_modify"] = true
+					if e.ModeChange != "" {
+						set["path_c_quoted_mode_change"] = true
+					}
+				case 'R':
+					switch {
+					case qOld && qNew:
+						set["rename_c_quoted_both_paths"] = true
+					case qOld:
+						set["rename_c_quoted_old_path_only"] = true
+					default:
+						set["rename_c_quoted_new_path_only"] = true
+					}
+					if pfx := commonDir(e.Old, e.New); pfx != "" {
+						// without the quoting git would have printed `pfx/{old => new}`
+						set["rename_c_quoted_in_common_directory_no_braces"] = true
+					}
+				}
+				if e.Binary {
+					set["path_c_quoted_binary"] = true
+				}
+				for _, f := range c.Entries {
+					if f.Printed() == f.Old || f.Printed() == f.New {
+						set["path_c_quoted_next_to_plain_path_in_commit"] = true
+					}
+				}
+				for _, p := range []string{e.Old, e.New} {
+					for i := 0; i < len(p); i++ {
+						switch b := p[i]; {
+						case b >= 0x80:
+							set["path_non_ascii"] = true
+						case b == '"':
+							set["path_double_quote"] = true
+						case b == '\\':
+							set["path_backslash"] = true
+						case b == '\t':
+							set["path_tab"] = true
+						case b == '\n':
+							set["path_line_break"] = true
+						case b < 0x20 || b == 0x7f:
+							set["path_other_control_character"] = true
+						}
+					}
+					if p != "" && QuoteC(p) != p && strings.HasSuffix(p, " ") {
+						set["path_c_quoted_ends_with_blank"] = true
+					}
+				}
+			}
 			if e.Binary {
 				set["binary"] = true
 			}
@@ -1025,7 +1125,7 @@ func Special(features []string) bool {
 		switch f {
 		case "rename", "delete", "binary", "path_space", "subject_bracketed_hex", "subject_brackets", "subject_hex_word",
 			"subject_repeats_author", "subject_repeats_date", "subject_other_date", "subject_arrow", "subject_colon",
-			"subject_merge_like", "subject_generated":
+			"subject_merge_like", "subject_generated", "path_c_quoted":
 			return true
 		}
 	}
